@@ -557,6 +557,72 @@ def phases(depth=3, wrap=False):
                   phase_mod=8 if wrap else 0, ptol=0)
 
 
+def render_ising(depth=3, dmm_first=False):
+    """C06/C05/C14: global + multi-target local + other-basis local + DMM (weights) + SLM mask on
+    3 atoms; ramp-shaped pulses so that every sample is distinct."""
+    devs = [{"nq": 3, "slm": True, "chs": [
+        {"kind": "ryd", "addr": "G", "clock": 1, "minDur": 1, "bw": 80.0},
+        {"kind": "ryd", "addr": "L", "clock": 1, "minDur": 1, "minRet": 0, "fixRet": 0, "maxTg": 2},
+        {"kind": "ram", "addr": "L", "clock": 1, "minDur": 1, "minRet": 0, "fixRet": 2, "maxTg": 1},
+        {"kind": "dmm", "clock": 1, "minDur": 1},
+    ]}]
+    pulses = [Pulse(RampWaveform(6, 0.5, 2.5), RampWaveform(6, -1.0, 1.0), 0.5),
+              Pulse.ConstantPulse(4, 1.5, -2.0, 0.0, post_phase_shift=0.5),
+              Pulse.ConstantAmplitude(0, RampWaveform(6, -1.0, -3.0), 0.0),
+              Pulse(CustomWaveform([0.25, 0.75, 1.25, 0.5, 0.125]), ConstantWaveform(5, 0.5), 1.0)]
+    calls = [{"op": "declare", "nm": 1, "cid": 1, "it": 0}, {"op": "declare", "nm": 2, "cid": 2, "it": 2},
+             {"op": "declare", "nm": 3, "cid": 3, "it": 1}]
+    P = "min-delay"
+    for (nm, p, proto) in ((1, 1, P), (1, 2, "no-delay"), (1, 4, P), (2, 1, P), (2, 2, "no-delay"),
+                           (3, 2, P), (3, 4, "wait-for-all")):
+        calls.append({"op": "add", "nm": nm, "p": p, "proto": proto})
+    calls.append({"op": "target", "nm": 2, "tg": 5})
+    calls.append({"op": "target", "nm": 3, "tg": 4})
+    calls.append({"op": "delay", "nm": 1, "d": 3, "rest": False})
+    calls.append({"op": "delay", "nm": 2, "d": 2, "rest": True})
+    calls.append({"op": "detmap", "mp": [2, 3], "w2": [2, 1, 0], "cid": 4})
+    calls.append({"op": "slm", "tg": 5, "cid": 4})
+    calls.append({"op": "dmm_add", "nm": 100, "p": 3, "proto": "no-delay"})
+    calls.append({"op": "dmm_add", "nm": 100, "p": 3, "proto": P})
+    calls.append({"op": "align", "nms": [1, 2], "rest": True})
+    calls.append({"op": "pshift", "phi": 1, "tg": 2, "basis": "ground-rydberg"})
+    init = [1, 2, 3]
+    if dmm_first:
+        # the detuning map is configured before the channels are declared (channel order matters
+        # for the per-atom view)
+        init = [k + 1 for k, c in enumerate(calls) if c["op"] == "detmap"] + init
+    c = Config("render_ising", devs, pulses, calls, init, depth)
+    c.render = True
+    return c
+
+
+def render_xy(depth=3):
+    """C06/C05: two Microwave channels (XY mode) with an SLM mask and a magnetic field."""
+    devs = [{"nq": 3, "slm": True, "reusable": True, "chs": [
+        {"kind": "mw", "addr": "G", "clock": 1, "minDur": 1},
+        {"kind": "mw", "addr": "G", "clock": 1, "minDur": 1},
+        {"kind": "dmm", "clock": 1, "minDur": 1},
+    ]}]
+    pulses = [Pulse(RampWaveform(6, 0.5, 2.5), RampWaveform(6, -1.0, 1.0), 0.5),
+              Pulse.ConstantPulse(4, 1.5, -2.0, 0.0),
+              Pulse.ConstantPulse(3, 0.0, 1.0, 0.0)]
+    calls = [{"op": "declare", "nm": 1, "cid": 1, "it": 0}, {"op": "declare", "nm": 2, "cid": 2, "it": 0}]
+    P = "min-delay"
+    for (nm, p, proto) in ((1, 1, P), (1, 2, "no-delay"), (2, 1, "no-delay"), (2, 2, P), (2, 3, "no-delay"),
+                           (1, 3, P)):
+        calls.append({"op": "add", "nm": nm, "p": p, "proto": proto})
+    calls.append({"op": "delay", "nm": 1, "d": 3, "rest": False})
+    calls.append({"op": "delay", "nm": 2, "d": 5, "rest": False})
+    calls.append({"op": "slm", "tg": 5, "cid": 3})
+    calls.append({"op": "slm", "tg": 2, "cid": 3})
+    calls.append({"op": "magfield", "zero": False})
+    calls.append({"op": "align", "nms": [1, 2], "rest": True})
+    calls.append({"op": "measure", "basis": "XY"})
+    c = Config("render_xy", devs, pulses, calls, [1, 2], depth)
+    c.render = True
+    return c
+
+
 def instances(name, tier):
     """The configurations of family `name` for a tier (each with a unique .name tag)."""
     quick = tier != "thorough"
@@ -586,6 +652,29 @@ def instances(name, tier):
         a = fine(4)
         a.name = "fine-d4"
         return [a, b]
+    if name == "ham":
+        out = []
+        for c in instances("render", tier):
+            if c.name.startswith("render_eom"):
+                continue
+            c.name = c.name.replace("render_", "ham_")
+            c.ham = True
+            out.append(c)
+        return out
+    if name == "render":
+        a = render_ising(3 if quick else 4)
+        a.name = f"render_ising-d{a.max_depth}"
+        b = render_xy(3 if quick else 4)
+        b.name = f"render_xy-d{b.max_depth}"
+        a2 = render_ising(3, dmm_first=True)
+        a2.name = "render_ising_dmmfirst-d3"
+        out = [a, a2, b]
+        for buf in (None, 240):
+            c = eom(3 if quick else 4, custom_buf=buf)
+            c.name = f"render_eom-b{buf or 0}-d{c.max_depth}"
+            c.render = True
+            out.append(c)
+        return out
     if name == "phases":
         a = phases(3 if quick else 4)
         a.name = f"phases-exact-d{a.max_depth}"
@@ -628,6 +717,22 @@ def instances(name, tier):
 
 def by_tag(tag):
     fam = tag.split("-")[0]
+    if tag.startswith("ham_"):
+        c = by_tag(tag.replace("ham_", "render_"))
+        c.name = tag
+        c.ham = True
+        return c
+    if tag.startswith("render_"):
+        d = int(tag.split("-d")[-1])
+        if tag.startswith("render_ising"):
+            c = render_ising(d, dmm_first="dmmfirst" in tag)
+        elif tag.startswith("render_xy"):
+            c = render_xy(d)
+        else:
+            c = eom(d, custom_buf=240 if "b240" in tag else None)
+            c.render = True
+        c.name = tag
+        return c
     if tag.startswith("phases-"):
         c = phases(int(tag.split("-d")[-1]), wrap="wrap" in tag)
         c.name = tag
